@@ -23,6 +23,11 @@ func (r *Registry) Build(id string) (Interceptor, error) {
 	for _, f := range r.factories {
 		i, err := f.NewInterceptor(id)
 		if err != nil {
+			// Do not leak the interceptors (and their goroutines) built so far.
+			for _, built := range interceptors {
+				_ = built.Close()
+			}
+
 			return nil, err
 		}
 
